@@ -1,0 +1,121 @@
+//go:build verif
+
+// Verification hooks (build tag "verif"): accessors for the unexported helpers of
+// the VSIX signer so that an external harness can compare them with its model
+// one by one. Add-only; not compiled into normal builds.
+
+package vsix
+
+import (
+	"archive/zip"
+	"bytes"
+	"crypto/x509"
+	"encoding/xml"
+
+	"github.com/beevik/etree"
+
+	"github.com/sassoftware/relic/v8/lib/pkcs9"
+)
+
+// VerifKeepFile is keepFile.
+func VerifKeepFile(fp string) bool { return keepFile(fp) }
+
+// VerifRelPath is relPath.
+func VerifRelPath(fp string) string { return relPath(fp) }
+
+// VerifCalcFileName is calcFileName.
+func VerifCalcFileName(cert *x509.Certificate) string { return calcFileName(cert) }
+
+// VerifRel is one decoded relationship.
+type VerifRel struct{ Target, Id, Type string }
+
+// VerifParseRels decodes a relationships part exactly as parseRels does after readZip.
+func VerifParseRels(blob []byte) ([]VerifRel, error) {
+	// parseRels wants a zip member; give it one
+	var buf bytes.Buffer
+	w := zip.NewWriter(&buf)
+	fw, err := w.Create("x.rels")
+	if err != nil {
+		return nil, err
+	}
+	if _, err := fw.Write(blob); err != nil {
+		return nil, err
+	}
+	if err := w.Close(); err != nil {
+		return nil, err
+	}
+	r, err := zip.NewReader(bytes.NewReader(buf.Bytes()), int64(buf.Len()))
+	if err != nil {
+		return nil, err
+	}
+	files := zipFiles{"x.rels": r.File[0]}
+	rels, err := parseRels(files, "x.rels")
+	if err != nil {
+		return nil, err
+	}
+	out := make([]VerifRel, 0, len(rels.Relationship))
+	for _, rel := range rels.Relationship {
+		out = append(out, VerifRel{rel.Target, rel.Id, rel.Type})
+	}
+	return out, nil
+}
+
+// VerifFind is oxfRelationships.Find on a list of (target, type) pairs.
+func VerifFind(rels []VerifRel, rType string) string {
+	var r oxfRelationships
+	for _, rel := range rels {
+		r.Relationship = append(r.Relationship, oxfRelationship{Target: rel.Target, Id: rel.Id, Type: rel.Type})
+	}
+	return r.Find(rType)
+}
+
+// VerifAppend runs oxfRelationships.Append for every (zipPath, relType) pair in turn
+// and returns the list and its serialisation.
+func VerifAppend(pairs [][2]string) ([]VerifRel, []byte, error) {
+	var r oxfRelationships
+	for _, p := range pairs {
+		r.Append(p[0], p[1])
+	}
+	out := make([]VerifRel, 0, len(r.Relationship))
+	for _, rel := range r.Relationship {
+		out = append(out, VerifRel{rel.Target, rel.Id, rel.Type})
+	}
+	blob, err := r.Marshal()
+	return out, blob, err
+}
+
+// VerifManifestRef is one decoded Manifest reference.
+type VerifManifestRef struct{ URI, Algorithm, DigestValue string }
+
+// VerifDecodeManifest decodes an Object element into oxmlManifest the way checkManifest does.
+func VerifDecodeManifest(manifest *etree.Element) ([]VerifManifestRef, error) {
+	doc := etree.NewDocument()
+	doc.SetRoot(manifest.Copy())
+	blob, err := doc.WriteToBytes()
+	if err != nil {
+		return nil, err
+	}
+	var m oxmlManifest
+	if err := xml.Unmarshal(blob, &m); err != nil {
+		return nil, err
+	}
+	out := make([]VerifManifestRef, 0, len(m.References))
+	for _, ref := range m.References {
+		out = append(out, VerifManifestRef{ref.URI, ref.DigestMethod.Algorithm, ref.DigestValue})
+	}
+	return out, nil
+}
+
+// VerifCheckTimestamp is checkTimestamp.
+func VerifCheckTimestamp(root *etree.Element, encryptedDigest []byte) (*pkcs9.CounterSignature, error) {
+	return checkTimestamp(root, encryptedDigest)
+}
+
+// VerifBuiltinContentTypes returns a copy of the package-level contentTypes table.
+func VerifBuiltinContentTypes() map[string]string {
+	out := make(map[string]string, len(contentTypes))
+	for k, v := range contentTypes {
+		out[k] = v
+	}
+	return out
+}
